@@ -17,12 +17,14 @@ enum Op {
     Burst,
     /// finish the i-th still active request (in start order)
     Finish(usize),
+    /// nothing happens for longer than the pool's idle timeout (only in the short-timeout family)
+    Wait,
     /// the j-th established session (creation order) dies
     Die(usize),
 }
 
 fn hstr(h: &[Op]) -> String {
-    h.iter().map(|o| match o { Op::Start => "start".to_string(), Op::Burst => "burst".to_string(), Op::Finish(i) => format!("finish({i})"), Op::Die(j) => format!("die({j})") }).collect::<Vec<_>>().join(",")
+    h.iter().map(|o| match o { Op::Start => "start".to_string(), Op::Burst => "burst".to_string(), Op::Finish(i) => format!("finish({i})"), Op::Wait => "wait(>idle timeout)".to_string(), Op::Die(j) => format!("die({j})") }).collect::<Vec<_>>().join(",")
 }
 
 fn histories(depth: usize) -> Vec<Vec<Op>> {
@@ -62,8 +64,16 @@ fn histories(depth: usize) -> Vec<Vec<Op>> {
 }
 
 async fn run_history(server: &Lx, front: std::net::SocketAddr, target: std::net::SocketAddr, min_idle: usize, h: &[Op]) -> Vec<(String, String)> {
+    run_history_cfg(server.tls_connections.clone(), front, target, min_idle, h.to_vec(), 3600, false).await
+}
+
+/// `idle_s`: the pool's idle timeout (= the heartbeat timeout); `by_identity`: histories of this family run
+/// concurrently, so a dial is recognised by the request being served on a session not seen before instead of
+/// by the relay's global connection counter.
+async fn run_history_cfg(tls_connections: Arc<std::sync::atomic::AtomicUsize>, front: std::net::SocketAddr, target: std::net::SocketAddr, min_idle: usize, h: Vec<Op>, idle_s: u64, by_identity: bool) -> Vec<(String, String)> {
+    let h = &h[..];
     let mut viols = vec![];
-    let client = make_client("pw", front, anytls_rs::padding::PaddingFactory::default(), pool_cfg(1, 3600, min_idle));
+    let client = make_client("pw", front, anytls_rs::padding::PaddingFactory::default(), pool_cfg(1, idle_s, min_idle));
     let mut active: Vec<(Arc<Stream>, Arc<Session>)> = vec![];
     let mut sessions: Vec<Arc<Session>> = vec![];
     // model: is session k still in the pool (inserted at creation, removed when handed out again)?
@@ -74,7 +84,7 @@ async fn run_history(server: &Lx, front: std::net::SocketAddr, target: std::net:
         match op {
             Op::Start | Op::Burst => {
                 let k = if *op == Op::Burst { 2 } else { 1 };
-                let before = server.tls_connections.load(Ordering::SeqCst);
+                let before = tls_connections.load(Ordering::SeqCst);
                 let healthy_pooled: Vec<usize> = sessions.iter().enumerate().filter(|(i, s)| !s.is_closed() && in_pool[*i]).map(|(i, _)| i).collect();
                 let healthy_existing = sessions.iter().any(|s| !s.is_closed());
                 let none_active = active.is_empty();
@@ -94,7 +104,7 @@ async fn run_history(server: &Lx, front: std::net::SocketAddr, target: std::net:
                         }
                     }
                 }
-                let dialled = server.tls_connections.load(Ordering::SeqCst) - before;
+                let dialled = if by_identity { got.iter().filter(|(_, sess)| !sessions.iter().any(|s| Arc::ptr_eq(s, sess))).count() as u64 } else { (tls_connections.load(Ordering::SeqCst) - before) as u64 };
                 for (st, sess) in got {
                     match sessions.iter().position(|s| Arc::ptr_eq(s, &sess)) {
                         Some(i) => in_pool[i] = false, // handed out again
@@ -122,6 +132,9 @@ async fn run_history(server: &Lx, front: std::net::SocketAddr, target: std::net:
                     drop(sess);
                     tokio::time::sleep(Duration::from_millis(5)).await;
                 }
+            }
+            Op::Wait => {
+                tokio::time::sleep(Duration::from_millis(idle_s * 1000 + 1300)).await;
             }
             Op::Die(j) => {
                 if let Some(s) = sessions.get(*j) {
@@ -153,7 +166,7 @@ pub fn run(tier: Tier) -> i32 {
     let mut rep = Report::new("C13", tier, "model_checking");
     let thorough = tier.is_thorough();
     rep.assumptions = vec![
-        "idle timeout and heartbeat timeout are 1 h so that only the request history matters; the check interval is 1 s only so that the heartbeat tasks of closed sessions (which hold the socket until their next tick) go away between histories".into(),
+        "idle timeout and heartbeat timeout are 1 h so that only the request history matters (1 s in the family with a 'wait' operation, where a request gap longer than the idle timeout is the point); the check interval is 1 s only so that the heartbeat tasks of closed sessions (which hold the socket until their next tick) go away between histories".into(),
         "a request = Client::create_proxy_stream to a loopback echo target; finishing a request = dropping the stream and session handles, as the front-ends do when a connection ends".into(),
         "TLS connections are counted by a TCP relay in front of the real server".into(),
     ];
@@ -184,6 +197,7 @@ pub fn run(tier: Tier) -> i32 {
         }
     }
     let rt = rt_multi();
+    let mut wait_family = 0usize;
     let res: Result<Vec<(usize, Vec<Op>, Vec<(String, String)>)>, String> = rt.block_on(async {
         let lx = start_lx("pw", "pw", pool_cfg(3600, 3600, 1), false, false).await?;
         // rotate over several loopback addresses (front relay and target) to stay clear of port exhaustion
@@ -195,6 +209,64 @@ pub fn run(tier: Tier) -> i32 {
         }
         let mut out = vec![];
         let mut n = 0usize;
+        // short-timeout family (idle timeout 1 s): every history of <= 5 (6) operations over {start, finish, wait} with
+        // exactly one wait that is followed by a request; run concurrently (each its own client), dials recognised by
+        // session identity
+        {
+            let wdepth = if thorough { 6 } else { 5 };
+            let mut wh: Vec<Vec<Op>> = vec![];
+            let mut frontier: Vec<(Vec<Op>, usize)> = vec![(vec![], 0)];
+            for _ in 0..wdepth {
+                let mut next = vec![];
+                for (h, active) in &frontier {
+                    let mut x = h.clone();
+                    x.push(Op::Start);
+                    next.push((x, active + 1));
+                    for i in 0..*active {
+                        let mut x = h.clone();
+                        x.push(Op::Finish(i));
+                        next.push((x, active - 1));
+                    }
+                    if !h.contains(&Op::Wait) && !h.is_empty() {
+                        let mut x = h.clone();
+                        x.push(Op::Wait);
+                        next.push((x, *active));
+                    }
+                }
+                for (h, _) in &next {
+                    if let Some(w) = h.iter().position(|o| *o == Op::Wait)
+                        && h.last() == Some(&Op::Start)
+                        && w + 1 < h.len()
+                    {
+                        wh.push(h.clone());
+                    }
+                }
+                frontier = next;
+            }
+            let mut set = vec![];
+            for min_idle in [0usize, 1] {
+                for h in &wh {
+                    let k = n % fronts.len();
+                    n += 1;
+                    let (front, target) = (fronts[k], targets[k].addr);
+                    let (h2, counter) = (h.clone(), lx.tls_connections.clone());
+                    set.push(tokio::spawn(async move { (min_idle, h2.clone(), run_history_cfg(counter, front, target, min_idle, h2, 1, true).await) }));
+                    if set.len() >= 24 {
+                        for j in set.drain(..) {
+                            if let Ok(r) = j.await {
+                                out.push(r);
+                            }
+                        }
+                    }
+                }
+            }
+            for j in set.drain(..) {
+                if let Ok(r) = j.await {
+                    out.push(r);
+                }
+            }
+            wait_family = wh.len();
+        }
         for min_idle in if thorough { vec![0usize, 1, 2] } else { vec![0usize, 1] } {
             for h in &hs {
                 let k = n % fronts.len();
@@ -223,8 +295,8 @@ pub fn run(tier: Tier) -> i32 {
                     rep.violation(k, &format!("min_idle {min_idle}: {d}"), json!({"engine": "BX/LX", "min_idle": min_idle, "history": hstr(h)}));
                 }
             }
-            rep.sections.insert("bx".into(), json!({"histories": hs.len(), "depth": depth, "min_idle_values": if thorough { vec![0, 1, 2] } else { vec![0, 1] }}));
+            rep.sections.insert("bx".into(), json!({"histories": hs.len(), "short_timeout_histories_with_a_wait": wait_family, "depth": depth, "min_idle_values": if thorough { vec![0, 1, 2] } else { vec![0, 1] }}));
         }
     }
-    rep.finish("BX over LX: every history of length <= d over {start request, burst of 2 concurrent requests, finish request i, session j dies} x min_idle in {0,1,2} through the real Client and Server over TLS; per request the session identity and the number of new TLS connections, per step the number of open sessions vs peak concurrency + min_idle; non-trivial = distinct history with >= 2 requests")
+    rep.finish("BX over LX: every history of length <= d over {start request, burst of 2 concurrent requests, finish request i, session j dies} x min_idle in {0,1,2} (+ a short-timeout family: every history over {start, finish, wait longer than the idle timeout} with one wait, idle timeout 1 s) through the real Client and Server over TLS; per request the session identity and the number of new TLS connections, per step the number of open sessions vs peak concurrency + min_idle; non-trivial = distinct history with >= 2 requests")
 }
